@@ -17,6 +17,7 @@ import GM.Spec.Url
 import GM.Gen.RenderFacts
 import GM.Proof.UrlBytes
 import GM.Proof.UrlSafe
+import GM.Props.ConvertE2E
 
 namespace GM.Props.C04
 open GM GM.Spec
@@ -128,5 +129,19 @@ example : hrefDangerous lookupEntity (urlOut true (urlEscape (strBytes "javascri
   decide +kernel
 /-- hypothesis of `browser_reads_written_value` is satisfiable -/
 example : Proof.plainUrl (strBytes "http://example.com/a%20b") = true := by decide +kernel
+
+/-- (re-export of `GM.Props.ConvertE2E.convert_safe_urls_harmless`) `convert_safe_urls_harmless`. For EVERY source, Unicode class assignment, XHTML / HardWraps setting: the HTML
+    `convertCore` answers in safe mode is the concatenation of the emitted pieces of one piece list `ps`
+    (`convert_options_orthogonal`), and EVERY destination-carrying piece `.url d` of `ps` — Link, Image and AutoLink
+    nodes are the only sources of such pieces — stands at an attribute site: the output reads
+    `… tag ++ value ++ '"' …` with `tag` = `<a href="` or `<img src="`, `value` = `m ++ urlOut false d` (`m` = the
+    `mailto:` the renderer puts in front of an e-mail autolink, else empty), `value` contains no `"` (so it IS the
+    attribute value a tokenizer reads), and `value` is not dangerous under `Spec.hrefDangerous` (decode character
+    references, trim, strip tab/CR/LF, read the scheme): C04's `safe_href` / `safe_autolink` composed over whole documents. -/
+theorem convert_safe_urls_harmless : type_of% @GM.Props.ConvertE2E.convert_safe_urls_harmless := @GM.Props.ConvertE2E.convert_safe_urls_harmless
+
+/-- (re-export of `GM.Props.ConvertE2E.url_pieces_at_attribute_sites`) the piece-list fact behind it holds for EVERY tree, extension set and alignment method (not only parser output):
+    C04 quantifies over all byte strings a node can store -/
+theorem url_pieces_at_attribute_sites : type_of% @GM.Props.ConvertE2E.url_pieces_at_attribute_sites := @GM.Props.ConvertE2E.url_pieces_at_attribute_sites
 
 end GM.Props.C04
